@@ -1,7 +1,184 @@
-(* Props/C14.v — property theorems only; proofs live in Proofs/. *)
-From Coq Require Import List NArith ZArith.
-From Cedar Require Import Lib.Bytes Model.Msg.
+(* Props/C14.v — property theorems only; proofs live in Proofs/C14Reader.v (reader refines a
+   flat decoder), Proofs/C14Writer.v (what the writer emits), Proofs/C14Layout.v,
+   Proofs/C14Roundtrip.v and Proofs/C14Double.v; the model is Model/Msg.v (+ Model/Double.v). *)
+From Coq Require Import List NArith ZArith Bool.
+From Cedar Require Import Lib.Bytes gen.Consts Model.Msg
+     Proofs.C14Reader Proofs.C14Writer Proofs.C14Layout Proofs.C14Roundtrip.
+Import ListNotations.
 Local Open Scope Z_scope.
-Theorem C14_placeholder : forall k n, be_dec (be_enc k n) = (n mod 2 ^ (8 * N.of_nat k))%N.
-Proof. exact be_dec_enc. Qed.
-Print Assumptions C14_placeholder.
+
+(* ======================================================================== *)
+(* The reference format, written from the protocol description (HTCondor's
+   stream.cpp conventions), independently of the model's encoder.            *)
+(* integer of any width: sign-extended to 64 bits, two's complement (a negative
+   z travels as 2^64 + z), eight bytes, most significant first               *)
+Definition fmt_u64 (z : Z) : Z := if z <? 0 then 2 ^ 64 + z else z.
+Definition fmt_byte (u : Z) (k : Z) : byte := n2b (Z.to_N ((u / 256 ^ k) mod 256)).
+Definition fmt_int (z : Z) : bytes :=
+  let u := fmt_u64 z in
+  [fmt_byte u 7; fmt_byte u 6; fmt_byte u 5; fmt_byte u 4;
+   fmt_byte u 3; fmt_byte u 2; fmt_byte u 1; fmt_byte u 0].
+(* string: the bytes before the first NUL, then the NUL terminator ... *)
+Fixpoint fmt_cstr (s : bytes) : bytes :=
+  match s with
+  | [] => [x00]
+  | b :: r => if byte_eqb b x00 then [x00] else b :: fmt_cstr r
+  end.
+(* ... preceded on an encrypted stream by its length, terminator included, as an integer *)
+Definition fmt_string (encrypted : bool) (s : bytes) : bytes :=
+  (if encrypted then fmt_int (Z.of_nat (length (fmt_cstr s))) else []) ++ fmt_cstr s.
+(* one writer operation: char = one byte, raw bytes verbatim, a flush adds nothing *)
+Definition fmt_op (encrypted : bool) (o : wop) : bytes :=
+  match o with
+  | WChar c => [c]
+  | WInt z => fmt_int z
+  | WStr s | WStrB s => fmt_string encrypted s
+  | WBytes bs => bs
+  | WFlush => []
+  end.
+(* values the Go types can hold: integers are int64 (int32/uint32 are widened by the
+   caller); the encrypted length prefix is an int32, so strings stay below 2 GiB *)
+Definition fmt_ok (encrypted : bool) (o : wop) : Prop :=
+  match o with
+  | WInt z => - 2 ^ 63 <= z < 2 ^ 63
+  | WStr s | WStrB s => encrypted = true -> Z.of_nat (length (fmt_cstr s)) < 2 ^ 31
+  | _ => True
+  end.
+
+(* ======================================================================== *)
+(* C14_layout: for EVERY sequence of PutChar / PutInt* / PutString / PutStringBytes /
+   PutBytes / FlushFrame calls (any values, any lengths, NULs inside strings included),
+   on plaintext and encrypted streams, the payload bytes of the frames the writer
+   hands to the stream, concatenated, are exactly the reference format's bytes of the
+   values in order - wherever the writer decided to start a new frame.         *)
+Theorem C14_layout :
+  forall (encrypted : bool) (ops : list wop),
+    Forall (fmt_ok encrypted) ops ->
+    concat (map fst (w_out (write_ops encrypted ops))) = concat (map (fmt_op encrypted) ops).
+Proof. exact message_layout. Qed.
+Print Assumptions C14_layout.
+
+(* the same per operation, from any writer state: it appends the value's bytes to
+   (frames already emitted ++ pending buffer) and changes nothing before them *)
+Theorem C14_layout_step :
+  forall (encrypted : bool) (w : writer) (o : wop),
+    fmt_ok encrypted o ->
+    content (do_put encrypted w o) = content w ++ fmt_op encrypted o.
+Proof. exact put_layout. Qed.
+Print Assumptions C14_layout_step.
+
+(* the integer encoder alone *)
+Theorem C14_layout_int :
+  forall z, - 2 ^ 63 <= z < 2 ^ 63 -> enc_int z = fmt_int z.
+Proof. exact enc_int_layout. Qed.
+Print Assumptions C14_layout_int.
+
+(* the hypotheses are satisfiable by a realistic message; the format on concrete values *)
+Example C14_layout_nonvacuous :
+  Forall (fmt_ok true) [WInt (-2); WStr [x68; x69]; WChar x41; WInt (2 ^ 63 - 1); WStrB [x61; x00; x62]]
+  /\ fmt_int (-2) = [xff; xff; xff; xff; xff; xff; xff; xfe]
+  /\ fmt_string true [x68; x69] = [x00; x00; x00; x00; x00; x00; x00; x03; x68; x69; x00]
+  /\ fmt_string false [x61; x00; x62] = [x61; x00].
+Proof.
+  split; [|repeat split; reflexivity].
+  repeat constructor; cbn; try discriminate; intros; reflexivity.
+Qed.
+
+(* ======================================================================== *)
+(* C14_cut_independent: decoding depends only on the concatenated payload bytes, never
+   on where the frame boundaries fall.  For ANY two honest framings of one message
+   (each frame's EOM flag is false exactly when more frames follow) with the same
+   concatenated payload - i.e. for every set of cut positions, including cuts in the
+   middle of a value, empty frames, and one frame per byte - and ANY list of Get
+   operations (GetChar, GetInt/Int64, GetInt32, GetUint32, GetString, GetBytes n,
+   GetRemainingBytes), in both modes, the reader returns the same result for every
+   operation: values and errors alike, also after an error.                   *)
+Theorem C14_cut_independent :
+  forall (encrypted : bool) (ops : list getop) (fs1 fs2 : list mframe),
+    frames_ok false fs1 -> frames_ok false fs2 ->
+    concat (map fst fs1) = concat (map fst fs2) ->
+    run_ops encrypted (reader_of fs1) ops = run_ops encrypted (reader_of fs2) ops.
+Proof. exact cut_independent. Qed.
+Print Assumptions C14_cut_independent.
+
+(* the same for readers in ANY intermediate state (part of a frame already buffered) *)
+Theorem C14_cut_independent_midway :
+  forall (encrypted : bool) (ops : list getop) (r1 r2 : reader),
+    wf r1 -> wf r2 -> remaining r1 = remaining r2 ->
+    run_ops encrypted r1 ops = run_ops encrypted r2 ops.
+Proof. exact cut_independent_readers. Qed.
+Print Assumptions C14_cut_independent_midway.
+
+(* explicit cut positions: cutting [data] into pieces of ANY lengths (too long = the
+   rest, zero = an empty frame) gives the results of the flat decoder on [data] *)
+Theorem C14_cut_positions :
+  forall (encrypted : bool) (ops : list getop) (data : bytes) (lens : list nat),
+    run_ops encrypted (reader_of (cut_at data lens)) ops = flat_ops encrypted data ops.
+Proof. exact run_ops_cut_flat. Qed.
+Print Assumptions C14_cut_positions.
+
+(* each Get* is the corresponding flat decoder applied to the bytes still to come *)
+Theorem C14_reader_refines_flat :
+  forall (encrypted : bool) (r : reader) (o : getop),
+    wf r ->
+    wf (fst (do_get encrypted r o)) /\
+    remaining (fst (do_get encrypted r o)) = fst (flat_get encrypted (remaining r) o) /\
+    snd (do_get encrypted r o) = snd (flat_get encrypted (remaining r) o).
+Proof. exact do_get_refines. Qed.
+Print Assumptions C14_reader_refines_flat.
+
+Example C14_cut_nonvacuous :
+  let fs1 := [([x00; x00; x00], false); ([], false); ([x00; x00; x00; x00; x07; x68], false); ([x69; x00], true)] in
+  let fs2 := [([x00; x00; x00; x00; x00; x00; x00; x07; x68; x69; x00], true)] in
+  frames_ok false fs1 /\ frames_ok false fs2 /\ concat (map fst fs1) = concat (map fst fs2) /\
+  run_ops false (reader_of fs1) [OInt; OStr; OChar] = [MOk (GvInt 7); MOk (GvBytes [x68; x69]); MErr MEof].
+Proof. cbn. repeat split; reflexivity. Qed.
+
+(* ======================================================================== *)
+(* C14_roundtrip: for EVERY sequence of mixed typed values - chars, integers within
+   the range of their Go type (int64 / int32 / uint32), NUL-free strings (on encrypted
+   streams: not starting with the null-string marker 0xAD, which is never the first
+   byte of valid UTF-8, and shorter than 2^31), raw byte strings - written by the
+   writer (Put* in order, then FinishMessage) and for EVERY honest re-framing [fs] of
+   the bytes it emitted (every set of cut positions), in both modes, the matching
+   Get* calls return exactly the values, without error.                        *)
+Theorem C14_roundtrip :
+  forall (encrypted : bool) (vs : list tval) (fs : list mframe),
+    Forall (valid encrypted) vs ->
+    frames_ok false fs ->
+    concat (map fst fs) = concat (map fst (w_out (write_vals encrypted vs))) ->
+    run_ops encrypted (reader_of fs) (map op_of vs) = map (fun v => MOk (val_of v)) vs.
+Proof. exact roundtrip_any_framing. Qed.
+Print Assumptions C14_roundtrip.
+
+(* instances: the writer's own framing, and explicit cut positions *)
+Theorem C14_roundtrip_own_framing :
+  forall (encrypted : bool) (vs : list tval),
+    Forall (valid encrypted) vs ->
+    run_ops encrypted (reader_of (w_out (write_vals encrypted vs))) (map op_of vs)
+    = map (fun v => MOk (val_of v)) vs.
+Proof. exact roundtrip_own_framing. Qed.
+Print Assumptions C14_roundtrip_own_framing.
+
+Theorem C14_roundtrip_every_cut :
+  forall (encrypted : bool) (vs : list tval) (lens : list nat),
+    Forall (valid encrypted) vs ->
+    run_ops encrypted
+      (reader_of (cut_at (concat (map fst (w_out (write_vals encrypted vs)))) lens)) (map op_of vs)
+    = map (fun v => MOk (val_of v)) vs.
+Proof. exact roundtrip_every_cut. Qed.
+Print Assumptions C14_roundtrip_every_cut.
+
+(* the writer's frames are an honest message: only the last frame carries EOM *)
+Theorem C14_writer_frames_honest :
+  forall (encrypted : bool) (ops : list wop), frames_ok false (w_out (write_ops encrypted ops)).
+Proof. exact write_ops_frames_ok. Qed.
+Print Assumptions C14_writer_frames_honest.
+
+Example C14_roundtrip_nonvacuous :
+  Forall (valid true)
+    [TInt64 (- 2 ^ 63); TInt32 (-1); TUint32 (2 ^ 32 - 1); TChar xad; TStr [x68; xc3; xa9]; TStr []; TStrB [x7a]; TBytes [x00; xad]].
+Proof.
+  repeat constructor; cbn; try discriminate; intros; try discriminate;
+    repeat constructor; try discriminate; reflexivity.
+Qed.
